@@ -216,11 +216,15 @@ theorem C11_zip_closed {α : Type} (Is : List (Iterable α)) (ls : List (List α
     LawfulAs (zipI Is) (zipLists ls) :=
   zip_lawfulAs Is ls hne n hlen h
 
-/-- **Zip backward**, inputs of EQUAL length, each input needing only its BACKWARD half -/
-theorem C11_zip_backward_equal {α : Type} (Is : List (Iterable α)) (ls : List (List α)) (hne : Is ≠ []) (n : Nat)
-    (hlen : ∀ l ∈ ls, l.length = n) (h : All₂ (fun I l => LawfulBwdAs I l) Is ls) :
-    LawfulBwdAs (zipI Is) (zipLists ls) :=
-  ⟨zip_bwdAs Is ls hne n hlen (h.imp fun _ _ x => x.bwd), zip_lenGet Is ls hne (h.imp fun _ _ x => x.lg)⟩
+/-- **Zip backward**, inputs of EQUAL length — or one input EMPTY (Zip_Iter_Last then answers Terminal at once): each
+    input needing only its BACKWARD half.  (What is left outside is exactly F12: unequal lengths, none of them 0.) -/
+theorem C11_zip_backward_equal {α : Type} (Is : List (Iterable α)) (ls : List (List α)) (hne : Is ≠ [])
+    (hlen : (∃ n, ∀ l ∈ ls, l.length = n) ∨ (∃ l ∈ ls, l = [])) (h : All₂ (fun I l => LawfulBwdAs I l) Is ls) :
+    LawfulBwdAs (zipI Is) (zipLists ls) := by
+  refine ⟨?_, zip_lenGet Is ls hne (h.imp fun _ _ x => x.lg)⟩
+  rcases hlen with ⟨n, hn⟩ | hemp
+  · exact zip_bwdAs Is ls hne n hn (h.imp fun _ _ x => x.bwd)
+  · exact zip_bwdAs_of_empty Is ls hne (h.imp fun _ _ x => x.bwd) hemp
 
 /-- full statement for the backward walk of Zip (inputs of any lengths) — refuted by `C11_zip_backward_refuted` -/
 def C11_zip_backward_statement : Prop :=
@@ -508,7 +512,7 @@ theorem C11_tree_mutated_lawful (init : List Int) (ops : List KOp) :
     constructed), `dirOf e` says which walks of the object are right, and `specOf e = defOf e` exactly for the expressions
     BOTH of whose walks are outside known-finding territory (Tuples without a repeated object; a Slice over an iterable that
     absorbs Terminal — Tuple, Range, Map / Filter / Slice over them — inside `SliceRegionFwdAbs/BwdAbs`, over any other
-    inside `SliceRegionFwd/Bwd`; Zips of inputs of equal length; Filters over fewer than `filterFuel` items; for a
+    inside `SliceRegionFwd/Bwd`; Zips of inputs of equal length or with an empty input; Filters over fewer than `filterFuel` items; for a
     container given by a HISTORY of mutations it is defined for every history).  For every such expression — containers,
     mutated containers, Range, and Slice / reverse / Zip / enumerate / Filter / Map nested to ANY depth — the model object is
     constructed and is lawful for `specOf e`.  Proved by induction over the expression, per direction (`denote_dir`). -/
@@ -727,6 +731,11 @@ example :
     (specOf (.slice (.slice (.tuple [1, 2, 3, 4, 5, 6, 7]) [none, none, some 2]) [none, none, some 3])).map (fun l => l.map Val.show) = some ["1", "7"] ∧
     (specOf (.slice (.range [some 7]) [none, none, some (-2)])).map (fun l => l.map Val.show) = some ["6", "4", "2", "0"] := by
   decide
+
+/-- a Zip with an EMPTY input walks backwards correctly although the lengths differ (the hypothesis of
+    `C11_zip_backward_equal` in its second form) -/
+example : (zipI [arrayI [1, 2, 3], arrayI []]).backward 10 = ([], .term) ∧ zipLists [[1, 2, 3], ([] : List Nat)] = [] ∧
+    specOf (.zip [.array [1, 2, 3], .list []]) = some [] ∧ specBwd (.zip [.array [1, 2, 3], .list [7]]) = none := by decide
 
 /-- hypotheses of the `get` theorems are met: an Array under a Slice is `GetPure` and its cursor is held by the caller -/
 example : Expr.getPure (.slice (.array [1, 2, 3]) [some 1]) = true ∧ (arrayI [1, 2, 3]).inObject = false ∧
